@@ -217,19 +217,20 @@ def stepLine (st : St) (line : String) : St × String :=
         let ext (lo : Int) (k : Nat) : Rat := ((lo.natAbs + k : Nat) : Rat)
         let tol (v o c m e : Rat) : Rat := 8 * n * u24 * (v * (max m e / absQ s) * (1 + sa / absQ s) + absQ o + absQ c) + pow2 (-100)
         (st, s!"{fq cz (tol g.vz g.oz cz mz (ext g.zmin g.nz * sa))} {fq cy (tol g.vy g.oy cy my (ext g.ymin g.ny * sa))} {fq cx (tol g.vx g.ox cx mx (ext g.xmin g.nx * sa))}")
-  | "invssrb" :: minTof :: maxTof :: "|" :: rest =>
+  | "invssrb" :: minTof :: maxTof :: rs3 :: rs4 :: "|" :: rest =>
     let (s3, rest) := splitBar rest
     let (s4, cvals) := splitBar rest
     match s3, s4 with
     | [seg3], _ :: segs4 =>
       let sg3 := parseSeg seg3
-      let ms : List Rat := (irange 0 (sg3.numAx - 1)).map fun a => ((sg3.m4 a : Int) : Rat)
+      -- m in millimetres: quarter ring spacings times ring_spacing/4; the source's tolerance is 1E-4 mm
+      let ms : List Rat := (irange 0 (sg3.numAx - 1)).map fun a => ((sg3.m4 a : Int) : Rat) * H rs3 / 4
       let nTof := (I maxTof - I minTof + 1).toNat
       let n3 := sg3.numAx.toNat
       let c := (cvals.map H).toArray          -- index k * n3 + a
       let outs : List (Option (List String)) := (segs4.map parseSeg).flatMap fun sg =>
         (irange 0 (sg.numAx - 1)).map fun ax =>
-          match inverseSsrbWeights ms ((sg.m4 ax : Int) : Rat) (1 / 10000) with
+          match inverseSsrbWeights ms (((sg.m4 ax : Int) : Rat) * H rs4 / 4) (1 / 10000) with
           | none => none
           | some ws => some ((List.range nTof).map fun k =>
               let v := ws.foldl (fun acc (aw : Nat × Rat) => acc + aw.2 * c.getD (k * n3 + aw.1) 0) 0
